@@ -67,6 +67,20 @@ Theorem C13_matcher_order : forall locale hm cs ms,
          (rev (map (fun r => (with_locale (r_l10n r), r_ref r)) (enabled_rules locale cs))).
 Proof. exact (build_matchers_order prefix pat realpath with_locale with_merge). Qed.
 
+(* no enabled rule is lost: it is represented in the list by its own matcher or, when it
+   was dropped as a duplicate, by the matcher of a rule with the same (real) prefix and
+   the same pattern *)
+Theorem C13_rules_represented : forall locale hm ps f r,
+  build locale hm ps = POk f ->
+  In r (enabled_rules locale (fst (gather locale ps [] []))) ->
+  exists m, In m (pf_matchers f) /\
+    realpath (prefix (m_l10n m)) = realpath (prefix (with_locale (r_l10n r))) /\
+    pat (m_l10n m) = pat (with_locale (r_l10n r)) /\
+    ((m_l10n m = with_locale (r_l10n r) /\ m_ref m = r_ref r /\ incl (r_test r) (m_test m)) \/
+     exists r', In r' (enabled_rules locale (fst (gather locale ps [] []))) /\
+                m_l10n m = with_locale (r_l10n r') /\ m_ref m = r_ref r').
+Proof. exact (build_complete prefix pat realpath with_locale with_merge). Qed.
+
 (* soundness: a yielded tuple comes from an existing, non-excluded file that a matcher of
    the list matches — on its l10n side (the file is the l10n path), or on its reference
    side (the l10n path is the image of the reference file).  With C13_matchers: a rule of
@@ -115,6 +129,30 @@ Proof.
   - intros rm Hr Hmt [R1 R2].
     eapply (iter_locale_complete_ref prefix matches sub fs); eauto.
     repeat split; auto.
+Qed.
+
+(* completeness relative to the RULES, under the additional contract that matchers with
+   the same prefix and pattern match the same paths (what duplicate dropping assumes;
+   C13_dedup_env_refuted shows the implementation's Matcher does not satisfy it when the
+   environments differ): every existing, non-excluded file covered on the l10n side by an
+   enabled rule of a participating configuration is yielded *)
+Theorem C13_complete_rules : forall locale hm ps f out r p,
+  (forall m m' q, realpath (prefix m) = realpath (prefix m') -> pat m = pat m' ->
+                  matches m q = matches m' q) ->
+  build locale hm ps = POk f -> iter_locale f = POk out ->
+  In r (enabled_rules locale (fst (gather locale ps [] []))) ->
+  In p fs -> matches (with_locale (r_l10n r)) p = true ->
+  excluded (pf_locale f) (pf_exclude f) p = false ->
+  (forall m, In m (pf_matchers f) -> matches (m_l10n m) p = true -> reachable (m_l10n m) p) ->
+  exists rf mg t, In (Some p, rf, mg, t) out.
+Proof.
+  intros locale hm ps f out r p Hclass Hb Hi Hr Hp Hm Hex Hreach.
+  destruct (build_complete prefix pat realpath with_locale with_merge _ _ _ _ _ Hb Hr)
+    as [m [Hin [E1 [E2 _]]]].
+  assert (Hm' : matches (m_l10n m) p = true) by (rewrite (Hclass _ _ p E1 E2); exact Hm).
+  destruct (Hreach m Hin Hm') as [R1 R2].
+  eapply (iter_locale_complete_l10n prefix matches sub fs); eauto.
+  repeat split; auto.
 Qed.
 
 (* an existing localized file is paired by the first matcher of the list that covers it,
